@@ -190,7 +190,8 @@ def run_case(base, case, acc, truncate=None):
         return
     model = H.model
     model._cv_armed = True
-    inside = ops.names(with_tags=("rev",))
+    # (edits of reactions that are detached from the model are nobody's to undo)
+    inside = ops.names(with_tags=("rev",), without_tags=("detached",))
     depth_target = rng.choice([1, 1, 2, 2, 3])
     n_ops = rng.randint(1, 12)
     exit_kind = rng.choice(["normal", "normal", "harness-exception", "harness-exception", "op-raises"])
